@@ -739,10 +739,13 @@ func stateBeginArrayItemOrEmpty(s *Scanner, c byte) state {
 		// Blank space between the brackets is not an item: `[ ]` is an empty array.
 		return scanContinue
 	}
-	if s.annotation == annotationNone {
+	r := stateBeginValue(s, c)
+	if r != scanContinue && s.annotation == annotationNone {
+		// Only the beginning of a value is an item: the annotation of the array
+		// itself (`[ // note`) leaves it empty.
 		s.context.ArrayHasItem = true
 	}
-	return stateBeginValue(s, c)
+	return r
 }
 
 // after reading `{`
